@@ -39,6 +39,11 @@ int main(int argc, char **argv)
 			if (line[0] == 'R') {
 				int r = xmp_play_buffer(c, NULL, 0, 0);
 				printf("%d - %d\n", r, ctx->p.buffer_data.in_size - ctx->p.buffer_data.consumed);
+			} else if (line[0] == 'E') {
+				xmp_end_player(c);
+				libxmp_set_random(&ctx->rng, 777);
+				if (xmp_start_player(c, atoi(argv[3]), atoi(argv[4])) < 0) { puts("RESTART-FAILED"); return 0; }
+				printf("0 - %d\n", ctx->p.buffer_data.in_size - ctx->p.buffer_data.consumed);
 			} else if (line[0] == 'S') {
 				xmp_stop_module(c);
 				printf("0 - %d\n", ctx->p.buffer_data.in_size - ctx->p.buffer_data.consumed);
